@@ -1,5 +1,6 @@
 """C04 — applications are isolated from each other."""
 from checks import proc_common as pc
+from lib import vlib
 
 ID = "C04"
 LEVEL = "proof"
@@ -18,6 +19,125 @@ LEVEL_NOTE = "Trusted: Lean kernel; the harness's scripted client and canonicali
 DESIGN_REF = "DESIGN.md §6 C04"
 
 
+VOCAB = ["record_sql", "allow_raw_exception_messages", "custom_events", "custom_parameters",
+         "custom_instrumentation_editor", "message_parameters", "job_arguments", "attributes_include",
+         "p1", "p2", "p3", "q~", "zz"]          # non-empty, none a prefix of another
+IDENT = ["lic", "nm", "rc", "hs", "lg", "pol", "ho", "th", "tp"]
+OTHER = ["ver", "dn", "tok", "dk", "sq"]
+
+
+def _hx(b):
+    return b.hex() if b else "-"
+
+
+def _rbytes(rng, ascii_only=False):
+    k = rng.choice([0, 1, 1, 2, 3, 5, 12, 40])
+    if ascii_only or rng.random() < 0.7:
+        return bytes(rng.choice(b"abcdefgxyz0189_./:- ") for _ in range(k))
+    return bytes(rng.randrange(256) for _ in range(k))
+
+
+def _desc(rng):
+    d = {"lic": _rbytes(rng) or b"L", "nm": _rbytes(rng), "rc": _rbytes(rng), "hs": rng.choice([0, 0, 1]), "lg": rng.choice([b"php", b"c", b""]),
+         "ho": _rbytes(rng), "th": rng.choice([b"", b"", b"to.example", _rbytes(rng)]), "tp": rng.choice([0, 0, 443, 8443, 65535]),
+         "ver": _rbytes(rng), "dn": _rbytes(rng), "tok": rng.choice([b"", b"ffff-ffff"]), "dk": _rbytes(rng), "sq": rng.choice([0, 1000, 2 ** 40])}
+    names = rng.sample(VOCAB, rng.choice([0, 0, 1, 2, 3, 5, 8]))
+    d["pol"] = [(n.encode(), rng.choice([0, 1, 1])) for n in names]
+    return d
+
+
+def _enc(p, d):
+    out = []
+    for k in IDENT + OTHER:
+        v = d[k]
+        if k == "pol":
+            v = ",".join("%s:%d" % (_hx(n), f) for n, f in v) or "-"
+        elif isinstance(v, bytes):
+            v = _hx(v)
+        out.append("%s.%s=%s" % (p, k, v))
+    return " ".join(out)
+
+
+def _mutate_field(rng, d, k):
+    """returns a copy of d that differs from d in identity component k (and in nothing else)"""
+    e = dict(d)
+    if k == "hs":
+        e[k] = 1 - d[k]
+    elif k == "tp":
+        e[k] = (d[k] + rng.choice([1, 256, 65535 - 1])) % 65536
+        if e[k] == d[k]:
+            e[k] = (d[k] + 1) % 65536
+    elif k == "pol":
+        pol = list(d["pol"])
+        how = rng.choice(["flip", "add", "drop"])
+        sup = [i for i, (n, f) in enumerate(pol) if f]
+        if how == "flip" and pol:
+            i = rng.randrange(len(pol))
+            pol[i] = (pol[i][0], 1 - pol[i][1])
+        elif how == "drop" and sup:
+            pol.pop(rng.choice(sup))
+        else:
+            free = [n for n in VOCAB if n.encode() not in [x[0] for x in pol]]
+            pol.append((rng.choice(free).encode(), 1))
+        e[k] = pol
+    else:
+        v = d[k]
+        how = rng.choice(["append", "case", "swap", "other"])
+        if how == "append" or not v:
+            e[k] = v + rng.choice([b"x", b" ", b"\x00", b"/"])
+        elif how == "case":
+            e[k] = v.swapcase() if v.swapcase() != v else v + b"X"
+        elif how == "swap":
+            e[k] = v[::-1] if v[::-1] != v else v + b"y"
+        else:
+            e[k] = _rbytes(rng) + b"!"
+            if e[k] == v:
+                e[k] = v + b"!"
+    return e
+
+
+def gen_appkey(rng):
+    a = _desc(rng)
+    kind = rng.choice(["one", "one", "one", "rest", "same", "unsupported", "order", "random", "movefield"])
+    b = dict(a)
+    if kind == "one":
+        b = _mutate_field(rng, a, rng.choice(IDENT))
+    elif kind == "rest":            # only components that are not part of the identity differ
+        for k in rng.sample(OTHER, rng.randint(1, len(OTHER))):
+            b[k] = (a[k] + 7) if isinstance(a[k], int) else a[k] + b"~"
+    elif kind == "unsupported":     # policies that are not supported do not count
+        b["pol"] = [(n, f) for n, f in a["pol"] if f] + [(n.encode(), 0) for n in VOCAB if n.encode() not in [x[0] for x in a["pol"]]][:rng.randint(0, 3)]
+    elif kind == "order":
+        pol = list(a["pol"])
+        rng.shuffle(pol)
+        b["pol"] = pol
+    elif kind == "random":
+        b = _desc(rng)
+    elif kind == "movefield":       # the same bytes, but in another identity component (name <-> host, collector <-> observer, …)
+        k1, k2 = rng.sample(["lic", "nm", "rc", "lg", "ho", "th"], 2)
+        b[k1], b[k2] = a[k2], a[k1]
+    return "appkey cmp %s %s kind=%s" % (_enc("a", a), _enc("b", b), kind)
+
+
+def gen_collide(rng):
+    """supported policy names whose sorted concatenations coincide although the sets differ (known finding)"""
+    a = _desc(rng)
+    word = bytes(rng.choice(b"abcdefgh") for _ in range(rng.randint(3, 8)))
+
+    def split(w):
+        cuts = sorted(rng.sample(range(1, len(w)), rng.randint(1, min(2, len(w) - 1))))
+        parts = [w[i:j] for i, j in zip([0] + cuts, cuts + [len(w)])]
+        return parts
+    for _ in range(50):
+        pa, pb = split(word), split(word)
+        if sorted(pa) == pa and sorted(pb) == pb and set(pa) != set(pb) and len(set(pa)) == len(pa) and len(set(pb)) == len(pb):
+            b = dict(a)
+            a["pol"] = [(n, 1) for n in pa]
+            b["pol"] = [(n, 1) for n in pb]
+            return "appkey cmp %s %s kind=collide" % (_enc("a", a), _enc("b", b))
+    return None
+
+
 def plan(ctx):
     batches = pc.plan_proc(ctx, ID, ["mixed", "nofatal", "allok"], 60, 3000)
     from checks import C09 as c9
@@ -27,14 +147,78 @@ def plan(ctx):
         o = c9.gen_op(rng)
         ops.append("frame serve " + o.split(" ", 2)[2])
     batches.append(("serve", [("serve%d" % i, ops[i:i + 50]) for i in range(0, len(ops), 50)]))
+    n = 1500 if ctx["tier"] == "quick" else 40000
+    ops = [gen_appkey(rng) for _ in range(n)]
+    batches.append(("appkey", [("appkey%d" % i, ops[i:i + 100]) for i in range(0, len(ops), 100)]))
+    ops = [o for o in (gen_collide(rng) for _ in range(40 if ctx["tier"] == "quick" else 1000)) if o]
+    batches.append(("appkey-collide", [("collide%d" % i, ops[i:i + 10]) for i in range(0, len(ops), 10)]))
     return batches
 
 
 def run(ctx, bname, seqs):
+    if bname.startswith("appkey") or (seqs and seqs[0][1] and seqs[0][1][0].startswith("appkey ")):
+        rs = vlib.run_sequences(seqs, ctx["work"], tag=bname)
+        return rs
     return pc.run_proc(ctx, bname, seqs, PREFIX)
 
 
-tags = pc.tags_proc
-nontrivial = pc.nontrivial_proc
+def _parse_desc(op, p):
+    d = {}
+    for tok in op.split():
+        if tok.startswith(p + "."):
+            k, v = tok[len(p) + 1:].split("=", 1)
+            d[k] = v
+    sup = []
+    pol = {}
+    if d.get("pol", "-") not in ("-", ""):
+        for e in d["pol"].split(","):
+            n, f = e.split(":")
+            pol[bytes.fromhex(n) if n != "-" else b""] = f == "1"
+    d["sup"] = sorted(n for n, f in pol.items() if f)
+    return d
+
+
+def _is_concat_collision(op):
+    if not op.startswith("appkey cmp "):
+        return False
+    a, b = _parse_desc(op, "a"), _parse_desc(op, "b")
+    if any(a.get(k) != b.get(k) for k in ("lic", "nm", "rc", "hs", "lg", "ho", "th", "tp")):
+        return False
+    return a["sup"] != b["sup"] and b"".join(a["sup"]) == b"".join(b["sup"])
+
+
+def _policy_concat(r):
+    """every failing op of the sequence is a pair that differs only in its supported-policy set while the sorted
+    concatenations of the names coincide, and the failure is the one that says so"""
+    bad = [i for i, _ in r.spec] + [i for i, _, _ in r.diffs]
+    if not bad:
+        return False
+    for i, m in r.spec:
+        if not (m.startswith("C04 identity: two descriptions that differ in an identity component") or
+                (m.startswith("C04 identity: after the trip over the wire") and "are now the same application" in m)):
+            return False
+    return all(i < len(r.ops) and _is_concat_collision(r.ops[i]) for i in bad)
+
+
+KNOWN_SIGS = {"policy_concat": _policy_concat}
+
+
+def tags(r):
+    if r.ops and r.ops[0].startswith("appkey"):
+        t = set()
+        for o, il in zip(r.ops, r.impl):
+            for tok in o.split():
+                if tok.startswith("kind="):
+                    t.add("appkey:" + tok[5:] + ":" + (il.split()[0] if il else "?"))
+        return t
+    return pc.tags_proc(r)
+
+
+def nontrivial(r):
+    if r.ops and r.ops[0].startswith("appkey"):
+        return True
+    return pc.nontrivial_proc(r)
+
+
 SHRINK = True
 PIN_PREFIX = 1
